@@ -20,5 +20,6 @@ def obligations(tier):
     obls.append(init_qq_obl())      # real _soxr_init for the quick recipe: cubic stage inside its envelope
     obls.append(plan_obl(3))      # the halving loop of _soxr_init terminates for every finite ratio
     obls += dft_set(tier)      # the DFT stage: block bookkeeping and phase carry of the real dft_stage_fn
+    obls += dft_bigfifo_set()      # ... with a very full input FIFO (extreme up-sampling ratios)
     obls += planenv.obls(tier)      # ENV-(b): plans of the real _soxr_init inside the envelope the kernel obligations assume (enumeration, labelled)
     return obls
